@@ -105,7 +105,9 @@ func (r restClientProtocol) addProtocolResponseHeaders(meta responseMeta, header
 	isErr := meta.end != nil && meta.end.err != nil
 	// Only JSON is supported for now unless using google.api.HttpBody
 	// payloads which override the content-type.
-	if headers["Content-Type"] == nil {
+	// (An error body is always written by us, so the handler's content-type
+	// does not apply to it.)
+	if isErr || headers["Content-Type"] == nil {
 		headers["Content-Type"] = []string{contentRestPrefix + meta.codec}
 	}
 	if !isErr && meta.compression != "" {
